@@ -309,6 +309,87 @@ def parse_params_cpp():
     return inst, bools
 
 
+def parse_vff():
+    """Statement order of `set_param(vec_from_file<config_t> &v, ParamString s)` in params.cpp.
+
+    Returns (direct_steps, file_steps): the recognised actions of the two branches of
+    `if (s.value.starts_with('@')) {file} else {direct}` in *execution* order.  Direct branch:
+    `emplace` (engages / overwrites v.value), `parse` (set_param of the vec), `size` (the
+    expected_size check), `store` (assignment of an already parsed vector).  Anything that is not
+    one of the shapes the model was written for raises (broken tie)."""
+    src = read(SRC + 'params/params.cpp')
+    _, body = cp.find_region(src, r'void\s+ALPAQA_EXPORT\s+set_param\s*\(\s*vec_from_file\s*<\s*config_t\s*>\s*&\s*v\b')
+    if not re.match(r'\s*assert_key_empty\s*<\s*vec_from_file\s*<\s*config_t\s*>\s*>\s*\(\s*s\s*\)\s*;', body):
+        raise TErr('params.cpp: set_param(vec_from_file&) no longer starts with assert_key_empty')
+    m = re.search(r"if\s*\(\s*s\.value\.starts_with\s*\(\s*'@'\s*\)\s*\)\s*\{", body)
+    if not m:
+        raise TErr("params.cpp: set_param(vec_from_file&): `if (s.value.starts_with('@')) {` not found")
+    fclose = cp.match_brace(body, m.end() - 1)
+    fbranch = body[m.end():fclose]
+    m2 = re.match(r'\s*else\s*\{', body[fclose + 1:])
+    if not m2:
+        raise TErr('params.cpp: set_param(vec_from_file&): else branch not found')
+    dopen = fclose + 1 + m2.end() - 1
+    dclose = cp.match_brace(body, dopen)
+    dbranch = body[dopen + 1:dclose]
+    if body[dclose + 1:].strip() or body[len(re.match(r'\s*assert_key_empty[^;]*;', body).group(0)):m.start()].strip():
+        raise TErr('params.cpp: set_param(vec_from_file&): statements outside the if / else')
+
+    def events(text, pats):
+        ev = []
+        for tag, rx, exactly_one in pats:
+            hits = [mm.start() for mm in re.finditer(rx, text)]
+            if exactly_one and len(hits) != 1:
+                raise TErr(f'params.cpp: set_param(vec_from_file&): expected exactly one `{tag}` action, found {len(hits)}')
+            ev += [(h, tag) for h in hits]
+        return sorted(ev)
+
+    # ---- direct branch
+    dev = events(dbranch, [
+        ('writes', r'v\.value\s*(?:\.\s*emplace\s*\(|\.\s*reset\s*\(|=[^=])|\*\s*v\.value\s*=[^=]|v\.value\s*->\s*(?:resize|operator)', False),
+        ('parse', r'\bset_param\s*\(', True),
+        ('size', r'v\.expected_size\s*>=\s*0', True),
+    ])
+    writes = [h for h, t in dev if t == 'writes']
+    if len(writes) != 1:
+        raise TErr(f'params.cpp: set_param(vec_from_file&): expected exactly one write of v.value in the direct branch, found {len(writes)}')
+    ppos = [h for h, t in dev if t == 'parse'][0]
+    pclose = cp.match_brace(dbranch, dbranch.index('(', ppos), '(', ')')
+    spos = [h for h, t in dev if t == 'size'][0]
+    w = writes[0]
+    wtxt = dbranch[w:w + 40]
+    if ppos < w < pclose:                       # set_param(v.value.emplace(), s): argument first
+        if not re.match(r'v\.value\s*\.\s*emplace\s*\(\s*\)', wtxt):
+            raise TErr('params.cpp: set_param(vec_from_file&): write inside the parse call is not `v.value.emplace()`')
+        order = [(w, 'emplace'), (ppos + 0.5 + w, 'parse'), (spos, 'size')]
+        order = ['emplace', 'parse'] + (['size'] if spos > pclose else [])
+        if spos < pclose:
+            raise TErr('params.cpp: set_param(vec_from_file&): size check before the parse')
+    else:
+        order = [t for _, t in sorted([(w, 'emplace' if re.match(r'v\.value\s*\.\s*emplace\s*\(\s*\)', wtxt) else 'store'),
+                                       (ppos, 'parse'), (spos, 'size')])]
+    if order not in (['emplace', 'parse', 'size'], ['parse', 'size', 'store']):
+        raise TErr(f'params.cpp: set_param(vec_from_file&): direct branch has the action order {order}, '
+                   f'which the model was not written for')
+    if order[0] == 'parse' and re.search(r'\bset_param\s*\(\s*(?:\*\s*)?v\b', dbranch):
+        raise TErr('params.cpp: set_param(vec_from_file&): parse target is v although the store comes later')
+    if not re.search(r'throw\s+std::invalid_argument\s*\(\s*"Incorrect size', dbranch):
+        raise TErr('params.cpp: set_param(vec_from_file&): the size check no longer throws "Incorrect size"')
+    # ---- file branch
+    fev = events(fbranch, [
+        ('open', r'std::ifstream\s+f\s*\(', True),
+        ('opencheck', r'if\s*\(\s*!\s*f\s*\)\s*throw', True),
+        ('read', r'read_row_std_vector\s*<', True),
+        ('size', r'v\.expected_size\s*>=\s*0', True),
+        ('store', r'v\.value\s*(?:\.\s*emplace\s*\(|=[^=])', True),
+        ('catch', r'catch\s*\(\s*alpaqa::csv::read_error\s*&', True),
+    ])
+    forder = [t for _, t in fev]
+    if re.search(r'v\.value\s*\.\s*(?:reset|emplace\s*\(\s*\))|\*\s*v\.value|v\.value\s*->', fbranch):
+        raise TErr('params.cpp: set_param(vec_from_file&): file branch touches v.value before the row is stored')
+    return order, forder
+
+
 def parse_duration_hpp():
     src = read(INC + 'util/duration-parse.hpp')
     _, body = cp.find_region(src, r'std::string_view\s+parse_single_duration\s*\(')
@@ -426,7 +507,13 @@ def emit_lean(d):
             if n not in ev:
                 raise TErr(f'ENUM_TABLE({t}): enumerator {n} does not exist (would not compile)')
         en_items.append('(%s, [%s])' % (lstr(t), ', '.join('(%s, %d)' % (lstr(n), ev[n]) for n in ents)))
-    o.append('def env : Env where\n  structs := ' + llist(st_items) + '\n  enums := ' + llist(en_items))
+    o.append('/-- `set_param(vec_from_file&, …)` (params.cpp): actions of the direct branch and of the\n'
+             '    `@file` branch in execution order -/')
+    o.append('def vffDirectSteps : List String := [' + ', '.join(lstr(x) for x in d['vff_direct']) + ']')
+    o.append('def vffFileSteps : List String := [' + ', '.join(lstr(x) for x in d['vff_file']) + ']')
+    o.append('')
+    o.append('def env : Env where\n  structs := ' + llist(st_items) + '\n  enums := ' + llist(en_items) +
+             '\n  vffEmplaceFirst := vffDirectSteps.head? == some "emplace"')
     o.append('')
     o.append('end Alpaqa.Gen.C18')
     return '\n'.join(o) + '\n'
@@ -495,7 +582,8 @@ def gather(lenient=False):
     else:
         inst, bools = parse_params_cpp()
         trim, stop, units = parse_duration_hpp()
-    return {'params': params, 'aliases': aliases, 'enumtabs': enumtabs, 'structs': structs,
+    vff_direct, vff_file = ([], []) if lenient else parse_vff()
+    return {'vff_direct': vff_direct, 'vff_file': vff_file,'params': params, 'aliases': aliases, 'enumtabs': enumtabs, 'structs': structs,
             'enums': enums, 'inst': inst, 'bools': bools, 'trim': trim, 'stop': stop, 'units': units,
             'macro_hashes': macro_hashes}
 
@@ -540,6 +628,9 @@ def main(out_path=None):
                                                  'hash': h([d['inst'], d['bools']]), 'n_inst': len(d['inst'])},
         'duration-parse.hpp units': {'file': 'util/duration-parse.hpp',
                                      'hash': h([d['trim'], d['stop'], d['units']])},
+        'params.cpp set_param(vec_from_file&) action order': {'file': 'src/params/params.cpp',
+                                                              'hash': h([d['vff_direct'], d['vff_file']]),
+                                                              'direct': d['vff_direct'], 'file_branch': d['vff_file']},
     }
     return regions, d
 
